@@ -73,8 +73,8 @@ func RT(g *G) *G     { return &G{K: KRTrim, Kids: []*G{g}, Mode: text.WsSpaces} 
 // RTm / LTm: RightTrim / LeftTrim with an explicit whitespace mode.
 func RTm(g *G, m text.WsMode) *G { return &G{K: KRTrim, Kids: []*G{g}, Mode: m} }
 func LTm(g *G, m text.WsMode) *G { return &G{K: KLTrim, Kids: []*G{g}, Mode: m} }
-func SUP(g *G) *G    { return &G{K: KSuppress, Kids: []*G{g}} }
-func SG(g *G) *G     { return &G{K: KSingle, Kids: []*G{g}} }
+func SUP(g *G) *G                { return &G{K: KSuppress, Kids: []*G{g}} }
+func SG(g *G) *G                 { return &G{K: KSingle, Kids: []*G{g}} }
 
 var (
 	a  = T('a')
@@ -133,6 +133,10 @@ func Curated() []*Grammar {
 		{Name: "any((abx)?,a)", Rules: []*G{A(O(S(a, b, x)), a)}, Finite: true, LRFree: true},
 		{Name: "any((abx)?,a)b?", Rules: []*G{S(A(O(S(a, b, x)), a), O(b))}, Finite: true, LRFree: true},
 		{Name: "A->Ax|X;X->A?b", Rules: []*G{A(S(N(0), x), N(1)), S(O(N(0)), b)}, Finite: true, Recursive: true},
+		{Name: "(a|aa)*", Rules: []*G{M(A(a, S(a, a)))}, Finite: true, LRFree: true},
+		{Name: "E->ExT|T;T->(a|ab)+", Rules: []*G{A(S(N(0), x, N(1)), N(1)), M1(A(a, S(a, b)))}, Finite: true, Recursive: true},
+		{Name: "P->Pa", Rules: []*G{S(N(0), a)}, Finite: true, Recursive: true},
+		{Name: "A->Ba;B->Ab", Rules: []*G{S(N(1), a), S(N(0), b)}, Finite: true, Recursive: true},
 		{Name: "P->x?aP|b", Rules: []*G{A(S(O(x), a, N(0)), b)}, Finite: true, LRFree: true, Recursive: true},
 		{Name: "x(ab)*x", Rules: []*G{S(x, M(S(a, b)), x)}, Finite: true, LRFree: true},
 		{Name: "x sepby(ab,x) b", Rules: []*G{S(x, SB(S(a, b), x), b)}, Finite: true, LRFree: true},
@@ -292,7 +296,7 @@ func Systematic(seed, k int) *Grammar {
 func uniq(gs []*Grammar) []*Grammar {
 	var cp func(e *G) *G
 	cp = func(e *G) *G {
-		n := &G{K: e.K, Ch: e.Ch, NT: e.NT}
+		n := &G{K: e.K, Ch: e.Ch, NT: e.NT, Mode: e.Mode}
 		for _, k := range e.Kids {
 			n.Kids = append(n.Kids, cp(k))
 		}
@@ -394,7 +398,36 @@ func TrimShapes() []*Grammar {
 			&Grammar{Name: "P->ltrim[" + n + "](Q)b|a;Q->rtrim[" + n + "](P)", Rules: []*G{A(S(LTm(N(1), m), b), a), RTm(N(0), m)}, Recursive: true},
 		)
 	}
-	return out
+	return uniq(out)
+}
+
+// TrimFree: left-recursion-free grammars with whitespace trimming (C03: a
+// trimmed repetition as the shared prefix of two alternatives, so that the
+// same sub-parser is asked twice at one position and whitespace errors are
+// recorded on the way).
+func TrimFree() []*Grammar {
+	a, b, x := T('a'), T('b'), T('x')
+	var out []*Grammar
+	modes := []text.WsMode{text.WsNone, text.WsSpaces, text.WsSpacesNl, text.WsSpacesForceNl}
+	names := []string{"none", "spaces", "nl", "forcenl"}
+	for i, m := range modes {
+		n := names[i]
+		nlb := func() *G { return LTm(b, text.WsSpacesNl) }
+		// Q: a trimmed repetition that can record a whitespace error while
+		// matching nothing; B: a repetition of a three-terminal sequence that
+		// can fail inside an iteration (its error reaches the context only)
+		q := M(LTm(b, m))
+		blk := M(S(nlb(), b, x))
+		out = append(out,
+			&Grammar{Name: "R->choice(Q B x, Q ltrim[nl](b));Q->ltrim[" + n + "](b)*;B->(ltrim[nl](b) b x)*",
+				Rules: []*G{C(S(N(1), N(2), x), S(N(1), nlb())), q, blk}, LRFree: true, Finite: true},
+			&Grammar{Name: "R->Q B x|Q ltrim[nl](b);Q->ltrim[" + n + "](b)*;B->(ltrim[nl](b) b x)*",
+				Rules: []*G{A(S(N(1), N(2), x), S(N(1), nlb())), q, blk}, LRFree: true, Finite: true},
+			&Grammar{Name: "R->rtrim[" + n + "](a) Q x|rtrim[" + n + "](a) Q;Q->ltrim[" + n + "](b)?",
+				Rules: []*G{A(S(RTm(a, m), N(1), x), S(RTm(a, m), N(1))), O(LTm(b, m))}, LRFree: true, Finite: true},
+		)
+	}
+	return uniq(out)
 }
 
 // HasTrim reports whether the grammar uses RightTrim.
